@@ -30,7 +30,7 @@ LEVEL = 'exploration'
 BUDGET_S = {'quick': 40, 'thorough': 600}
 FLOORS = {'quick': {'tasks': 530, 'must_remove_checked': 5500, 'must_keep_checked': 14000,
                     'foreign_files_checked': 8000, 'strategy_directory_walk': 70, 'strategy_bulk_delete': 100,
-                    'strategy_tile_walk': 330, 'vanished_under_cleanup': 150},
+                    'strategy_tile_walk': 330, 'vanished_under_cleanup': 150, 'tile_walk_with_cache_refresh_rule': 40},
           'thorough': {'tasks': 10000, 'must_remove_checked': 100000, 'must_keep_checked': 270000,
                        'foreign_files_checked': 160000, 'strategy_directory_walk': 1350,
                        'strategy_bulk_delete': 1750, 'strategy_tile_walk': 6600, 'vanished_under_cleanup': 2500}}
@@ -430,6 +430,9 @@ def build_case(run, spec):
             'levels_conf': levels_conf, 'shape': shape, 'rb': rb, 'tz': tz, 'coverage': coverage,
             'cov_class': cov_class, 'coarse': coarse, 'tiles': tiles, 'link': link, 'two_grids': two_grids,
             'populated': P,
+            # the cache's own refresh rule (mapproxy.yaml, refresh_before) is about serving, not about what a cleanup
+            # has to remove: half an hour to either side of the cleanup's threshold
+            'cache_refresh': rng.choice([None, None, -1800, 1800]) if rbk in ('time', 'time_native', 'mtime') else None,
             # a concurrent remover (second cleanup, seeder rewriting a tile): some tile files vanish in the very
             # moment the cleanup looks at them
             'vanish': (spec['i'] * 7919 + 13) if (backend == 'file' and not link and spec['i'] % 3 == 0) else None}
@@ -783,6 +786,8 @@ def _execute(run, case, d):
         m = {'backend': backend, 'layout': layout, 'strategy': taken[0] if taken else strategy, 'obs': obs}
         if victims:
             m['files_vanish_under_cleanup'] = True
+        if case.get('cache_refresh') is not None:
+            m['cache_has_refresh_before'] = 'earlier' if case['cache_refresh'] < 0 else 'later'
         m.update(kw)
         return m
 
@@ -796,6 +801,8 @@ def _execute(run, case, d):
               'cache': cache_yaml(backend, layout, False)}
     if case.get('link'):
         ccache['link_single_color_images'] = True
+    if case.get('cache_refresh') is not None:
+        ccache['refresh_before'] = {'time': local_str(rb['T'] + case['cache_refresh'], case['tz']).replace(' ', 'T')}
     mp = {'globals': {'cache': {'base_dir': base}}, 'services': {'demo': None}, 'grids': grids,
           'caches': {'c': ccache, 'o': ocache}}
     mp_file = os.path.join(d, 'mapproxy.yaml')
@@ -1079,6 +1086,8 @@ def _execute(run, case, d):
                 pass
         for s in taken:
             run.hit('strategy_' + s)
+        if 'tile_walk' in taken and case.get('cache_refresh') is not None:
+            run.hit('tile_walk_with_cache_refresh_rule')
         if taken and taken[0] != strategy:
             run.count('strategy_differs_from_inference')
             strategy = taken[0]
